@@ -84,10 +84,22 @@ QueryT == <<
 QueryBodyT == SimpleQueryT \o CompoundT
 QueryPipeBodyT == <<FromQueryT>> \o QueryBodyT
 QueryExprT == QueryBodyT \o QueryT \o <<FromQueryT>>
-\* a sub-query in an expression: '((SELECT ..))' may be read as a parenthesised scalar sub-query, and FROM-first
-\* queries are not documented in that position, so G leaves both out
-QueryNoFromT == << QueryT[1], QueryT[2], QueryT[3], Tmpl("Query", <<N("Query", "QueryBody"), Pipes(1)>>), QueryT[5] >>
-SubQueryBodyT == <<SelectT>> \o CompoundT \o QueryNoFromT
+\* Sub-queries in an expression or in table position.  '((SELECT ..))' may be read as a parenthesised scalar sub-query, and
+\* FROM-first queries are documented as statements / CTE bodies only: G leaves FROM-first queries out of such sub-queries
+\* at every parenthesis depth and in every operand of a set operation (the NF family below).
+SubQueryNFT == Tmpl("SubQuery", <<T("("), N("Query", "QueryExprNoFrom"), T(")")>>)
+SimpleQueryNFT == <<SelectT, SubQueryNFT, SelectTrailingFrom>>
+CompoundNF(op, ad) == Tmpl("CompoundQuery", <<SET("Op", op), SET("AllOrDistinct", ad), LS("Queries", "SimpleQueryNF", <<T(op), T(ad)>>, 2)>>)
+CompoundNFT == << CompoundNF("UNION", "ALL"), CompoundNF("UNION", "DISTINCT"), CompoundNF("INTERSECT", "ALL"), CompoundNF("INTERSECT", "DISTINCT"),
+                  CompoundNF("EXCEPT", "ALL"), CompoundNF("EXCEPT", "DISTINCT") >>
+QueryBodyNFT == SimpleQueryNFT \o CompoundNFT
+QueryNoFromT == <<
+  Tmpl("Query", <<N("Query", "QueryBodyNF"), N("OrderBy", "OrderBy"), O("Limit", "Limit"), O("ForUpdate", "ForUpdate"), Pipes(0)>>),
+  Tmpl("Query", <<N("Query", "QueryBodyNF"), N("Limit", "Limit"), O("ForUpdate", "ForUpdate"), Pipes(0)>>),
+  Tmpl("Query", <<N("Query", "QueryBodyNF"), N("ForUpdate", "ForUpdate"), Pipes(0)>>),
+  Tmpl("Query", <<N("Query", "QueryBodyNF"), Pipes(1)>>),
+  Tmpl("Query", <<N("With", "With"), N("Query", "QueryBodyNF"), O("OrderBy", "OrderBy"), O("Limit", "Limit"), O("ForUpdate", "ForUpdate"), Pipes(0)>>) >>
+SubQueryBodyT == <<SelectT>> \o CompoundNFT \o QueryNoFromT
 \* the trailing comma at the very end of a statement
 SelectTrailingEnd == Tmpl("Select", <<T("SELECT"), L("Results", "SelectItem", ",", 1), VAR(<< <<>>, <<TN(",")>> >>)>>)
 \* ... and of a pipe SELECT that is the last operator of the statement (parseSelectResults is shared)
@@ -151,7 +163,7 @@ QueryTemplates(nt) ==
     [] nt = "SelectAs" -> SelectAsT [] nt = "StarExcept" -> StarExceptT [] nt = "StarReplace" -> StarReplaceT [] nt = "StarReplaceItem" -> StarReplaceItemT
     [] nt = "SelectItem" -> SelectItemT [] nt = "From" -> FromT [] nt = "Where" -> WhereT [] nt = "GroupBy" -> GroupByT [] nt = "Having" -> HavingT
     [] nt = "SimpleQuery" -> SimpleQueryT [] nt = "QueryBody" -> QueryBodyT [] nt = "QueryPipeBody" -> QueryPipeBodyT [] nt = "QueryExpr" -> QueryExprT
-    [] nt = "SubQueryBody" -> SubQueryBodyT [] nt = "QueryExprNoFrom" -> QueryBodyT \o QueryNoFromT [] nt = "SelectTrailingEnd" -> <<SelectTrailingEnd>>
+    [] nt = "SubQueryBody" -> SubQueryBodyT [] nt = "QueryExprNoFrom" -> QueryBodyNFT \o QueryNoFromT [] nt = "SimpleQueryNF" -> SimpleQueryNFT [] nt = "QueryBodyNF" -> QueryBodyNFT [] nt = "SelectTrailingEnd" -> <<SelectTrailingEnd>>
     [] nt = "PipeSelectTrail" -> PipeSelectTrailT [] nt = "QueryPipeTrail" -> QueryPipeTrailT
     [] nt = "OrderBy" -> OrderByT [] nt = "OrderByItem" -> OrderByItemT [] nt = "Collate" -> CollateT [] nt = "StringValue" -> StringValueT
     [] nt = "IntValue" -> IntValueT [] nt = "IntOrParam" -> IntOrParamT [] nt = "NumValue" -> NumValueT [] nt = "NumOrParam" -> NumOrParamT
